@@ -3,6 +3,7 @@
 import ast
 
 import z3
+from .ops import BindingError
 
 from .engine import (Unsupported, Arr, Row, RowVec, Vec, Ref, Opq, PyRange, PyEnum, PyZip, PNONE, St, Fr,
                      Closure, Named, Exc, V, NONE, _is_z3, _const_int, dotted_name, find_function,
@@ -333,7 +334,15 @@ def contract_call(eng, c, args, kwargs, st, fr, k, node):
     pre_ns.__dict__["arg"] = pre_ns
     pre_ns.__dict__["ghost"] = Namespace({g_: eng.resolve(v_, st.heap) for g_, v_ in st.ghost.items() if not g_.startswith("#")})
     if c.requires is not None:
-        eng.oblige_clauses("precondition", label, st, c.requires(eng.S, pre_ns), node)
+        try:
+            pre = c.requires(eng.S, pre_ns)
+        except (BindingError, TypeError, AttributeError, z3.Z3Exception) as ex:
+            # the (changed) caller passes something the callee's contract cannot even be stated for: the precondition is not
+            # established - a failed obligation; the path is not followed further
+            eng.oblige("precondition", f"{label}: the arguments have the types the callee's contract is stated for "
+                                       f"({type(ex).__name__}: {str(ex)[:120]})", st, z3.BoolVal(False), node)
+            return None
+        eng.oblige_clauses("precondition", label, st, pre, node)
     eng.assumptions  # (contracts used are recorded by the runner)
     eng.used_contracts.add(c.key)
     # exceptional outcomes
@@ -1028,6 +1037,16 @@ def _heappush(eng, a, kw, st, fr, k, node):
         g["SentMsg"] = z3.Store(g["SentMsg"], n, m)
         st = St(st.env, st.heap, st.pc, g)
     return k(PNONE, st)
+
+
+@method("msgheap", "append")
+def _heap_append(eng, recv, a, kw, st, fr, k, node):
+    """h.append(item) on the message heap: the entry is stored, but NOT through heapq - the heap order that ``h[0]`` (the lowest
+    message number) and the clean-up of delivered messages rely on is no longer maintained.  The model's reading of ``h[0]`` as
+    "the least number" is justified only if every insertion goes through heapq, hence the obligation."""
+    eng.oblige("heap-discipline", "the message buffer is only filled through heapq.heappush (h[0] is read as the lowest buffered "
+                                  "number, which holds only under the heap invariant)", st, z3.BoolVal(False), node)
+    return _heappush(eng, [recv, a[0]], {}, st, fr, k, node)
 
 
 @lib("heapq.heappop")
